@@ -11,17 +11,28 @@ SPEC_TYPES = {"1.0": "https://ocfl.io/1.0/spec/#inventory", "1.1": "https://ocfl
 DIGEST_LEN = {"md5": 32, "sha1": 40, "sha256": 64, "sha512": 128, "blake2b-512": 128,
               "blake2b-160": 40, "blake2b-256": 64, "blake2b-384": 96, "sha512/256": 64}
 VERSION_RE = re.compile(r"^v(\d+)$")
-RFC3339 = re.compile(r"^(\d{4})-(\d{2})-(\d{2})[Tt](\d{2}):(\d{2}):(\d{2})(\.\d+)?([Zz]|[+-]\d{2}:\d{2})$")
+RFC3339 = re.compile(r"^(\d{4})-(\d{2})-(\d{2})[Tt](\d{2}):(\d{2}):(\d{2})(\.\d+)?([Zz]|[+-]\d{2}:\d{2})\Z")
 
 
 class DupKey(Exception):
     pass
 
 
+class DMap(dict):
+    """a JSON object in which some key occurred more than once with array values (a digest map):
+    the arrays are merged and the keys remembered; manifest / fixity blocks report E096 / E097,
+    a state block does not (no MUST of the specification forbids it; RFC 8259 section 4: SHOULD)"""
+    dups = ()
+
+
 def _no_dups(pairs):
-    d = {}
+    d = DMap()
     for k, v in pairs:
         if k in d:
+            if isinstance(v, list) and isinstance(d[k], list):
+                d[k] = d[k] + v
+                d.dups = tuple(d.dups) + (k,)
+                continue
             raise DupKey(k)
         d[k] = v
     return d
@@ -44,6 +55,9 @@ def _valid_date(s):
     y, mo, d, h, mi, se = (int(m.group(i)) for i in range(1, 7))
     if not (1 <= mo <= 12 and 1 <= d <= 31 and h <= 23 and mi <= 59 and se <= 60):
         return False
+    off = m.group(8)
+    if off not in ("Z", "z") and not (int(off[1:3]) <= 23 and int(off[4:6]) <= 59):
+        return False          # RFC 3339 5.6: time-numoffset = ("+" / "-") time-hour ":" time-minute
     dim = [31, 29 if (y % 4 == 0 and (y % 100 != 0 or y % 400 == 0)) else 28, 31, 30, 31, 30, 31, 31, 30, 31, 30, 31]
     return d <= dim[mo - 1]
 
@@ -156,14 +170,16 @@ def validate_inventory(inv, spec, errs, where=""):
     mdigests = {}
     mpaths = []
     if manifest is not None:
+        if getattr(manifest, "dups", ()):
+            E("E096", "digest listed twice in the manifest")      # 3.5.2 E096: each digest once
         for d, paths in manifest.items():
             if alg and (len(d) != DIGEST_LEN[alg] or not re.fullmatch(r"[0-9a-fA-F]+", d)):
                 E("E096", "manifest digest %r is not a %s digest" % (d[:16], alg))
             if d.lower() in mdigests:
                 E("E096", "digest listed twice (case-insensitively)")
             mdigests[d.lower()] = d
-            if not isinstance(paths, list) or not paths:
-                E("E092", "manifest entry without paths")
+            if not isinstance(paths, list):
+                E("E092", "manifest entry is not an array")      # 3.5.2 E092; an empty array breaks no MUST
                 continue
             for p in paths:
                 if _path_problems(p):
@@ -202,8 +218,8 @@ def validate_inventory(inv, spec, errs, where=""):
                     if manifest is not None and mdigests.get(d.lower()) != d:
                         E("E050", "state digest not in manifest (digests must be spelled as in the manifest)")
                     used.add(d.lower())
-                    if not isinstance(paths, list) or not paths:
-                        E("E051", "state entry without paths")
+                    if not isinstance(paths, list):
+                        E("E051", "state entry is not an array")      # 3.5.3.1; an empty array breaks no MUST
                         continue
                     for p in paths:
                         if _path_problems(p):
@@ -221,6 +237,9 @@ def validate_inventory(inv, spec, errs, where=""):
                 if not isinstance(u, dict):
                     E("E054", "user is not an object")
                 else:
+                    for uk in u:
+                        if uk not in ("name", "address"):
+                            E("E102", "unknown user key %r" % uk)      # 3.5 E102: no keys outside the specification
                     if not isinstance(u.get("name"), str):
                         E("E054", "user without name")
                     if "address" in u and not isinstance(u["address"], str):
@@ -242,6 +261,8 @@ def validate_inventory(inv, spec, errs, where=""):
                     continue
                 seen = set()
                 fpaths = []
+                if getattr(block, "dups", ()):
+                    E("E097", "fixity digest listed twice")      # 3.5.4 E097
                 for d, paths in block.items():
                     if a in DIGEST_LEN and (len(d) != DIGEST_LEN[a] or not re.fullmatch(r"[0-9a-fA-F]+", d)):
                         E("E057", "fixity digest malformed")
@@ -306,7 +327,7 @@ def _check_sidecar(dirpath, inv_bytes, alg, errs, where):
     except OSError:
         errs.append(("E058", where + "sidecar unreadable"))
         return
-    m = re.fullmatch(r"([0-9a-fA-F]+)[ \t]+inventory\.json\n?", txt)
+    m = re.fullmatch(r"([0-9a-fA-F]+)[ \t]+inventory\.json[ \t\r\n]*", txt)
     if not m:
         errs.append(("E061", where + "sidecar malformed"))
         return
@@ -356,7 +377,7 @@ def validate_object(root, fixity=True):
     for n in entries:
         p = os.path.join(root, n)
         k = _kind(p)
-        if n in decls or n == "inventory.json" or n.startswith("inventory.json."):
+        if n in decls or n == "inventory.json" or (n.startswith("inventory.json.") and (alg is None or n == "inventory.json." + alg)):
             if k != "f":
                 E("E090" if k == "l" else "E001", "%s is not a regular file" % n)
             continue
@@ -382,10 +403,18 @@ def validate_object(root, fixity=True):
         if _kind(vdir) != "d":
             continue
         cd = cdir or "content"
+        # 3.3 E015: only an inventory and ITS digest sidecar (3.6: inventory.json.<digestAlgorithm>) may be files here
+        valg = None
+        try:
+            v0 = json.loads(open(os.path.join(vdir, "inventory.json"), "rb").read().decode("utf-8"))
+            valg = v0.get("digestAlgorithm") if isinstance(v0, dict) else None
+        except (OSError, ValueError, RecursionError):
+            pass
+        vside = "inventory.json." + valg if valg in ("sha512", "sha256") else None
         for n in _listdir(vdir):
             p = os.path.join(vdir, n)
             k = _kind(p)
-            if n == "inventory.json" or n.startswith("inventory.json."):
+            if n == "inventory.json" or (n.startswith("inventory.json.") and (vside is None or n == vside)):
                 if k != "f":
                     E("E015", "%s/%s is not a regular file" % (vname, n))
                 continue
@@ -397,7 +426,8 @@ def validate_object(root, fixity=True):
         cdp = os.path.join(vdir, cd)
         if _kind(cdp) == "d":
             for d, dirs, files in os.walk(cdp):
-                if not dirs and not files:
+                if not dirs and not files and d != cdp:
+                    # 3.3.1 E024: no empty directories WITHIN the content directory; an empty content directory itself is W003
                     E("E024", "empty directory below %s" % os.path.relpath(d, root))
                 for nm in list(dirs):
                     if os.path.islink(os.path.join(d, nm)):
@@ -448,7 +478,7 @@ def validate_object(root, fixity=True):
                             continue
                         def lmap(st, man):
                             out = {}
-                            inv_m = {d.lower(): sorted(ps) for d, ps in man.items() if isinstance(ps, list)}
+                            inv_m = {d.lower(): sorted(x for x in ps if isinstance(x, str)) for d, ps in man.items() if isinstance(ps, list)}
                             for d, ps in st.items():
                                 if isinstance(ps, list):
                                     for p in ps:
